@@ -479,6 +479,10 @@ func ruleExactTruncationIn(file string, min int) func(p *Prog, l *Ledger, tier s
 							l.Prove(rule, name, key, p.Pos(m.Pos()), "quotient multiplied by the unit constant 1 (time.Nanosecond): not scaled")
 							continue
 						}
+						if remainderAlsoUsed(a, fn, q) && !mentionsTime(q.X, 0) {
+							l.Prove(rule, name, key, p.Pos(m.Pos()), "the dividend is not a time quantity and the remainder of the same division is used as well: a decomposition into quotient and remainder (row and column of a grid)")
+							continue
+						}
 						l.Fail(rule, name, key, p.Pos(m.Pos()), fmt.Sprintf("%s multiplies an integer quotient (… / %s) whose remainder is already discarded: divide last, or the result is too small whenever the divisor does not divide the dividend", name, descOf(q.Y)))
 					}
 				}
@@ -747,4 +751,86 @@ func truncatedDurationUnit(v ssa.Value, depth int) string {
 		}
 	}
 	return ""
+}
+
+// remainderAlsoUsed: fn also computes x % d for the dividend x and divisor d of the quotient q (the same
+// expression: equal constants, the same registers, loads of the same access path) and uses it.
+func remainderAlsoUsed(a *NilAnalysis, fn *ssa.Function, q *ssa.BinOp) bool {
+	var same func(x, y ssa.Value, depth int) bool
+	same = func(x, y ssa.Value, depth int) bool {
+		x, y = stripConv(x), stripConv(y)
+		if x == y {
+			return true
+		}
+		if depth > 6 {
+			return false
+		}
+		if cx, ok := constInt(x); ok {
+			cy, ok2 := constInt(y)
+			return ok2 && cx == cy
+		}
+		switch u := x.(type) {
+		case *ssa.BinOp:
+			v, ok := y.(*ssa.BinOp)
+			return ok && u.Op == v.Op && same(u.X, v.X, depth+1) && same(u.Y, v.Y, depth+1)
+		case *ssa.UnOp:
+			v, ok := y.(*ssa.UnOp)
+			if !ok || u.Op != v.Op {
+				return false
+			}
+			if u.Op == token.MUL {
+				pu, pv := a.pathOf(u.X, 0), a.pathOf(v.X, 0)
+				return pu != "" && pu == pv
+			}
+			return same(u.X, v.X, depth+1)
+		}
+		return false
+	}
+	for _, b := range fn.Blocks {
+		for _, ins := range b.Instrs {
+			r, ok := ins.(*ssa.BinOp)
+			if !ok || r.Op != token.REM || len(*r.Referrers()) == 0 {
+				continue
+			}
+			if same(r.X, q.X, 0) && same(r.Y, q.Y, 0) {
+				return true
+			}
+		}
+	}
+	return false
+}
+
+// mentionsTime: the expression reads a time.Duration (or calls something): a quantity of time.
+func mentionsTime(v ssa.Value, depth int) bool {
+	if v == nil || depth > 8 {
+		return depth > 8
+	}
+	if typeStr(v.Type()) == "Duration" || strings.HasSuffix(v.Type().String(), "time.Duration") {
+		return true
+	}
+	switch x := v.(type) {
+	case *ssa.Const:
+		return false
+	case *ssa.BinOp:
+		return mentionsTime(x.X, depth+1) || mentionsTime(x.Y, depth+1)
+	case *ssa.Convert:
+		return mentionsTime(x.X, depth+1)
+	case *ssa.ChangeType:
+		return mentionsTime(x.X, depth+1)
+	case *ssa.UnOp:
+		if x.Op == token.MUL {
+			return false // a load: its own type was looked at above
+		}
+		return mentionsTime(x.X, depth+1)
+	case *ssa.Phi:
+		for _, e := range x.Edges {
+			if mentionsTime(e, depth+1) {
+				return true
+			}
+		}
+		return false
+	case *ssa.Parameter, *ssa.FreeVar:
+		return false
+	}
+	return true // calls and anything else: not excluded
 }
